@@ -1,6 +1,6 @@
 #!/bin/sh
 # run every claimed quick check (sequentially) and summarise
-cd /verif
+cd "$(dirname "$0")"
 for c in $(/venv/bin/python -c "import json;print(' '.join(x['property_id'] for x in json.load(open('MANIFEST.json'))['checks']))" 2>/dev/null); do
   s=$(date +%s)
   out=$(./vcheck $c --tier ${1:-quick} 2>&1); rc=$?
